@@ -5,6 +5,8 @@ Sources transcribed (pyyeti/ode/_base_ode_class.py, solveunc.py):
   _common_precalcs : `nonrf = nonzero(ones(n) with rf cleared)`, `kdof = nonrf`
   _make_rb_el      : `_rb` (relative to the non-rf part), `rb`, `_el`, `el`
   _mk_slice(s)     : `mkSlice`, `slicesFlag`
+  _make_rb_el, rb is None : `smallUnc` (`abs(k) < tol`), `smallCoupled` (row and column maxima of
+                     `abs(k)` and `abs(b)` below `tol`), `listMax` (`ndarray.max`)
   SolveUnc.__init__: `get_su_coef(self.m, self.b, self.k, h, self._rb)` — the vectors are the
                      NON-RF partitions and `self._rb` is relative to that partition: `coefRb`
                      records exactly what is passed (Props/C01 `partition_ok` shows it selects
@@ -81,5 +83,36 @@ def mkSlice (pv : List Nat) : Option (Nat × Nat) :=
 /-- `_mk_slices`: `slices = True` iff every partition vector converts -/
 def slicesFlag (p : Part) : Bool :=
   [p.nonrf, p.rf, p.nonrf, p.rb, p.el, p.rb', p.el'].all fun v => (mkSlice v).isSome
+
+/-! ### auto-detection predicates of `_make_rb_el` (`rb is None`)
+
+`small i` of `mkPart` is instantiated with `smallUnc k tol` for uncoupled systems (`k` the non-rf
+stiffness vector) and with `smallCoupled k b tol` for coupled ones (`k`, `b` the non-rf matrices as
+lists of rows).  Polymorphic: run at `Float` in the driver, at a linear order in the theorems. -/
+
+section auto
+variable {α : Type} [LT α] [DecidableLT α]
+
+/-- `ndarray.max()` of a non-empty vector (the empty one does not occur: `ksize > 0`) -/
+def listMax (d : α) : List α → α
+  | [] => d
+  | a :: r => r.foldl (fun m x => if m < x then x else m) a
+
+/-- `abs(self.k) < tol` at position `i` (uncoupled) -/
+def smallUnc (abs : α → α) (zero : α) (k : List α) (tol : α) (i : Nat) : Bool :=
+  decide (abs (k.getD i zero) < tol)
+
+/-- column `i` of a matrix given as a list of rows -/
+def column (zero : α) (M : List (List α)) (i : Nat) : List α := M.map fun row => row.getD i zero
+
+/-- `(abs(k).max(axis=0) < tol) & (abs(k).max(axis=1) < tol) & (abs(b).max(axis=0) < tol) &
+(abs(b).max(axis=1) < tol)` at position `i` (coupled) -/
+def smallCoupled (abs : α → α) (zero : α) (k b : List (List α)) (tol : α) (i : Nat) : Bool :=
+  decide (listMax zero ((column zero k i).map abs) < tol) &&
+  decide (listMax zero ((k.getD i []).map abs) < tol) &&
+  decide (listMax zero ((column zero b i).map abs) < tol) &&
+  decide (listMax zero ((b.getD i []).map abs) < tol)
+
+end auto
 
 end PyYetiVerif.SuPartition
